@@ -60,6 +60,10 @@ def store(A, storage):
         return sps.csc_matrix(A)
     if storage == 'csr':
         return sps.csr_matrix(A)
+    if storage == 'csr_array':       # scipy's sparse ARRAY containers (what AssembleGeneral(matrix_type=csr_array) hands on)
+        return sps.csr_array(A)
+    if storage == 'csc_array':
+        return sps.csc_array(A)
     raise KeyError(storage)
 
 
@@ -1034,6 +1038,19 @@ def generate(tier, seed):
                                                                       if f in spec['families']]
             yield {'__level__': f"{kind}/n{n}/{'+'.join(spec['storage'])}"}
             yield from fn(fams, n, spec['storage'], spec['axes'])
+    # scipy sparse ARRAY containers through all three partition / solve modules
+    yield {'__level__': 'sparse-array containers (csr_array, csc_array), n=3'}
+    arr_fams = [f for f in family_names(3) if tier != 'quick' or f in QUICK_PART_FAMILIES]
+    for fam in arr_fams:
+        for storage in ('csr_array', 'csc_array'):
+            for rdt in 'rc':
+                if (rdt == 'c') != is_complex_name(fam):
+                    continue
+                yield {'mod': 'linsolve', 'mat': fam, 'n': 3, 'table': t, 'storage': storage, 'rdt': rdt,
+                       'axes': LS_AXES_QUICK_PATTERNS}
+    yield from [c_ for c_ in soe_cases(arr_fams, 3, ['csr_array', 'csc_array'], [SOE_AXES_QUICK])
+                if c_['storage'] not in ('dense', 'csc')]
+    yield from [c_ for c_ in sc_cases(arr_fams, 3, ['csr_array', 'csc_array'], [SC_AXES_FULL]) if c_['storage'] != 'dense']
     pp = pl['patterns_in_partition_modules']
     if pp:
         yield {'__level__': 'soe/patterns-n3'}
